@@ -1,0 +1,22 @@
+//go:build verif
+
+package consensus
+
+import "github.com/icon-project/goloop/common"
+
+// Accessors used by the /verif consensus trace monitor: who signed a message
+// and the hash of the signed bytes (the value goloop's own double-sign
+// detection compares).
+
+func VerifVoteSigner(m *VoteMessage) *common.Address { return m.address() }
+func VerifVoteHash(m *VoteMessage) []byte            { return m.hash() }
+
+func VerifProposalSigner(m *ProposalMessage) *common.Address { return m.address() }
+func VerifProposalHash(m *ProposalMessage) []byte            { return m.hash() }
+
+// VerifSubprotocol returns the sub-protocol number a message is sent and
+// WAL-logged with.
+func VerifSubprotocol(m Message) uint16 { return m.subprotocol() }
+
+// VerifNewVoteMessage returns an empty vote message ready to be filled and signed.
+func VerifNewVoteMessage() *VoteMessage { return newVoteMessage() }
